@@ -201,10 +201,15 @@ def sim_dict(rng, n=None, trees="multi"):
     """small msprime tree sequence (contemporaneous samples) as a dict"""
     from vlib import gen
     n = n or rng.randint(2, 6)
-    L = rng.choice([4, 10, 50])
-    rec = 0.0 if trees == "single" else rng.choice([0.5, 2.0, 6.0]) / L
-    ts = gen.sim_ts(rng, n=n, L=L, rec=rec, mu=rng.choice([0.3, 1.0, 3.0]) / L, historical=False,
-                    multimerger=rng.random() < 0.3)
+    for _ in range(50):
+        L = rng.choice([4, 10, 50])
+        rec = 0.0 if trees == "single" else rng.choice([0.5, 2.0, 6.0]) / L
+        ts = gen.sim_ts(rng, n=n, L=L, rec=rec, mu=rng.choice([0.3, 1.0, 3.0]) / L, historical=False,
+                        multimerger=rng.random() < 0.3)
+        # multiple-merger models can give huge times / thousands of mutations, which only makes the
+        # linear space underflow: keep the inputs moderate
+        if ts.num_mutations <= 60 and ts.num_nodes <= 18:
+            break
     return ts_to_dict(ts)
 
 
@@ -468,3 +473,138 @@ def summary(case):
     return {"nodes": len(d["nodes_time"]), "edges": len(d["edges"]), "trees": int(ts.num_trees),
             "muts": len(d["mutations"]), "grid": case["grid"], "space": case["space"],
             "eps": case["eps"], "mu": case["mu"]}
+
+
+# ------------------------------------------------------------------ inside / outside
+def run_io_impl(case, ts=None):
+    """drive BeliefPropagation exactly as core.InsideOutsideMethod.run does (without the
+    final normalisation); options: cache_inside, out_std (outside standardize), ignore_oldest_root"""
+    ts, fit = make_fit(case, ts)
+    n = ts.num_nodes
+    forced_prior = {int(u): [float(x) for x in fit.priors[int(u)]] for u in case["nonfixed_order"]}
+    marg = fit.inside_pass(cache_inside=bool(case.get("cache_inside")))
+    fit.outside_pass(standardize=bool(case.get("out_std", True)),
+                     ignore_oldest_root=bool(case.get("ignore_oldest_root")))
+
+    def rows(x):
+        out = []
+        for u in range(n):
+            v = x[u]
+            out.append([float(a) for a in v] if np.ndim(v) == 1 else None)
+        return out
+    return {
+        "fit": fit, "ts": ts,
+        "prior": forced_prior,
+        "inside": rows(fit.inside), "outside": rows(fit.outside), "marg": float(marg),
+        "es_in": [(int(e.id), int(e.parent), int(e.child)) for e in fit.edges_by_parent_asc(grouped=False)],
+        "es_out": [(int(e.id), int(e.parent), int(e.child)) for e in fit.edges_by_child_desc(grouped=False)],
+    }
+
+
+def coq_io_term(case, name, res):
+    """model run of inside_pass + outside_pass on the same data; Definition r_<name> :
+    option (inside dump * marginal * option outside dump) * (inside order ok) * (outside order ok)"""
+    d = case["ts"]
+    n = len(d["nodes_time"])
+    G = len(case["grid"])
+    P = space_name(case)
+    sfrac, roots = span_fractions(d)
+    prior = [res["prior"].get(u, []) for u in range(n)]
+    s = "Definition prior_%s : nat -> list float := vec_of_list %s.\n" % (name, clist(prior, cvec))
+    s += "Definition sf_%s : nat -> float := fun e => nth e %s nan.\n" % (name, cvec(sfrac))
+    s += "Definition roots_%s : list (nat * float) := %s.\n" % (
+        name, clist(roots, lambda rf: "(%d%%nat, %s)" % (rf[0], cfloat(rf[1]))))
+    s += "Definition esin_%s : list edge := %s.\n" % (name, clist(res["es_in"], cedge))
+    s += "Definition esout_%s : list edge := %s.\n" % (name, clist(res["es_out"], cedge))
+    nonfixed = clist(sorted(case["nonfixed_order"]), cnat)
+    s += ("Definition r_%s := (match inside_pass %s %d lik_%s sf_%s fixed_%s prior_%s true esin_%s roots_%s with\n"
+          "  | None => None\n"
+          "  | Some (st, m) => Some (dump %d (i_ins %s st), m,\n"
+          "      match outside_pass %s %d lik_%s sf_%s fixed_%s st %s %s %s %d 0%%float esout_%s roots_%s %s with\n"
+          "      | None => None | Some out => Some (dump %d out) end)\n"
+          "  end,\n"
+          "  inside_orderb fixed_%s [] (groupby e_parent esin_%s),\n"
+          "  outside_orderb (map fst (groupby e_child esout_%s)) [] (groupby e_child esout_%s)).\n"
+          % (name, P, G, name, name, name, name, name, name,
+             n, P,
+             P, G, name, name, name, cbool(bool(case.get("cache_inside"))),
+             cbool(bool(case.get("out_std", True))), cbool(bool(case.get("ignore_oldest_root"))), n,
+             name, name, nonfixed,
+             n,
+             name, name, name, name))
+    return s
+
+
+def close(a, b, rtol=1e-9, atol=0.0, log=False):
+    """floats equal up to rtol; NaN/inf patterns must match exactly; in log space the
+    comparison is absolute on the logarithm (= relative on the probability)"""
+    if a is None or b is None:
+        return a is b
+    if math.isnan(a) or math.isnan(b):
+        return math.isnan(a) and math.isnan(b)
+    if math.isinf(a) or math.isinf(b):
+        return a == b
+    if log:
+        return abs(a - b) <= rtol * (1.0 + abs(a)) + atol
+    return abs(a - b) <= rtol * max(abs(a), abs(b)) + atol
+
+
+def vec_close(a, b, **kw):
+    if a is None or b is None:
+        return a is None and b is None
+    return len(a) == len(b) and all(close(x, y, **kw) for x, y in zip(a, b))
+
+
+def unopt(x):
+    """parsed Coq option -> python (None or payload)"""
+    if x is None:
+        return None
+    assert isinstance(x, tuple) and x[0] == "Some", x
+    return x[1]
+
+
+def compare_io(ctx, case, res, parsed, rtol=1e-9, label="inside_outside"):
+    """compare one parsed model result with the implementation's; returns max relative difference seen"""
+    (run, in_ok, out_ok) = parsed
+    log = case["space"] == LOG
+    rp = {"case": case}
+    if not in_ok:
+        ctx.tie_fail("correspondence", "inside_order", "ts.edges() is not grouped by parent with children first", rp)
+    if not out_ok:
+        ctx.tie_fail("correspondence", "outside_order", "edges_by_child_desc does not give parents before children", rp)
+    run = unopt(run)
+    if run is None:
+        ctx.corr(label + "/inside", False, "model: error (None), implementation returned values", rp)
+        return
+    ins, marg, out = run
+    ins = [unopt(x) for x in ins]
+    n = len(res["inside"])
+    ok_in = all(vec_close(ins[u], res["inside"][u], rtol=rtol, log=log) for u in range(n))
+    ctx.corr(label + "/inside", ok_in, "impl=%r model=%r" % (res["inside"], ins),
+             dict(rp, impl=res["inside"], model=ins))
+    ctx.corr(label + "/marginal", close(float(marg), res["marg"], rtol=rtol, log=log),
+             "impl=%r model=%r" % (res["marg"], marg), dict(rp, impl=res["marg"], model=marg))
+    out = unopt(out)
+    if out is None:
+        ctx.corr(label + "/outside", False, "model: error (None), implementation returned values", rp)
+        return
+    out = [unopt(x) for x in out]
+    ok_out = all(vec_close(out[u], res["outside"][u], rtol=rtol, log=log) for u in range(n))
+    ctx.corr(label + "/outside", ok_out, "impl=%r model=%r" % (res["outside"], out),
+             dict(rp, impl=res["outside"], model=out))
+
+
+def io_correspondence(ctx, cases, results, requires, chunk=60, rtol=1e-9, label="inside_outside"):
+    """evaluate the model on every (case, implementation result) pair and compare"""
+    items = [(k, c, r) for k, (c, r) in enumerate(zip(cases, results)) if r is not None]
+    for lo in range(0, len(items), chunk):
+        part = items[lo:lo + chunk]
+        text = ""
+        for k, c, r in part:
+            name = "c%d" % k
+            text += coq_common(c, name) + coq_io_term(c, name, r)
+        # one Eval per case: the result types differ in nothing, but separate Evals keep terms small
+        text += "Eval vm_compute in [%s].\n" % "; ".join("r_c%d" % k for k, _c, _r in part)
+        parsed = ctx.coq_eval(text, requires=requires, tag="io")[0]
+        for (k, c, r), pr in zip(part, parsed):
+            compare_io(ctx, c, r, pr, rtol=rtol, label=label)
